@@ -10,7 +10,7 @@ inductive Res (α : Type) where
   | ok    : α → Res α
   | none  : Res α
   | panic : String → Res α
-  deriving Repr
+  deriving Repr, DecidableEq
 
 namespace Res
 
